@@ -6,7 +6,7 @@ import "context"
 
 // Shared scaffolding for the batch harnesses (C06 C07 C08 C09 C11).
 
-const bMax = 8
+const bMax = 16
 
 type bMon struct {
 	n, c      int
